@@ -153,7 +153,7 @@ func c19SweepCases() []c19Case {
 
 func TestVerif_C19_extremes(t *testing.T) {
 	c19ProcessInit()
-	col := verifkit.New("C19", "extremes", "deterministic sweeps. (1) each numeric / duration field of the data-plane request bodies (table c19ExtTable) x each extreme value (negative, zero, one, 1e6, 2^62, int64 limits, +-1e308, denormal, negative / zero / huge durations), one case per pair, followed by the requests that make a stored value take effect (add + search + refine + drop for a create; refine + vacuum + search for a config). Every such case is NON-TRIVIAL (the mutated body still decodes). (2) every body-reading route x every non-JSON / top-level-alien body, and every field of every route x every alien value (type confusion), 6 requests per case; non-trivial when the altered body still decodes. Quick tier: a seed-selected quarter of (1) and tenth of (2); thorough: all")
+	col := verifkit.New("C19", "extremes", "deterministic sweeps. (1) each numeric / duration field of the data-plane request bodies (table c19ExtTable) x each extreme value (negative, zero, one, 1e6, 2^62, int64 limits, +-1e308, denormal, negative / zero / huge durations), one case per pair, followed by the requests that make a stored value take effect (add + search + refine + drop for a create; refine + vacuum + search for a config). Every such case is NON-TRIVIAL (the mutated body still decodes). (2) every body-reading route x every non-JSON / top-level-alien body, and every field of every route x every alien value (type confusion), 6 requests per case; non-trivial when the altered body still decodes. Quick tier: for (1) the values -1, 2^62, \"-1s\" and [1,2] for every field plus a seed-selected quarter of the rest, for (2) a seed-selected tenth; thorough: all")
 	defer col.Finish()
 	if p := verifkit.ReplayPath(); p != "" {
 		if verifkit.ReplayPart(p) != "extremes" {
@@ -185,7 +185,9 @@ func TestVerif_C19_extremes(t *testing.T) {
 	for _, e := range c19ExtTable {
 		for _, v := range c19ExtValues[e.kind] {
 			total++
-			if !verifkit.Thorough() && (int64(total)+verifkit.Seed())%4 != 0 {
+			// quick tier: the values that crashed something in the past always run, the rest is sliced by the seed
+			always := v == `-1` || v == `4611686018427387904` || v == `"-1s"` || v == `[1,2]`
+			if !verifkit.Thorough() && !always && (int64(total)+verifkit.Seed())%4 != 0 {
 				continue
 			}
 			if verifkit.Shards() > 1 && total%verifkit.Shards() != verifkit.Shard() {
